@@ -206,6 +206,26 @@ func (h *H) recordGroup(gi int, kind string, perGroup int) {
 		heights[n] = true
 		recs = append(recs, h.genRec(g, gi*perGroup+i, n))
 	}
+	if gi == 1 {
+		// staleness stress: for every transaction kind a fully populated value directly followed by
+		// an all-nil value of the SAME concrete type (and the same for receipts): a decoder that
+		// reuses the previous element (no reset, pooled struct) leaks omitted / nil fields
+		st := h.genRec(g, 2, 77)
+		st.Txs, st.Rcs = nil, nil
+		for _, k := range txKinds {
+			for _, mode := range []int{2, 1, 2} {
+				tx := g.Value(reflect.PointerTo(k), &GenCfg{Mode: mode, MaxLen: 3}).Interface().(core.Transaction)
+				g.fixTx(tx)
+				st.Txs = append(st.Txs, tx)
+				st.Rcs = append(st.Rcs, g.Receipt(tx, &GenCfg{Mode: mode, MaxLen: 3}))
+			}
+		}
+		if !heights[77] {
+			heights[77] = true
+			recs = append(recs, st)
+			res.Hit("record:staleness-stress")
+		}
+	}
 	if gi == 0 {
 		// one big block (more than 256 transactions: indexes and counts beyond one byte)
 		big := h.genRec(g, 1, 300)
@@ -224,6 +244,9 @@ func (h *H) recordGroup(gi int, kind string, perGroup int) {
 			recs = append(recs, big)
 		}
 	}
+	// the L1 head is one record per store: the last written record carries it
+	l1 := g.Value(reflect.TypeOf(core.L1Head{}), Cfg(3+gi, false)).Interface().(core.L1Head)
+	recs[len(recs)-1].L1 = &l1
 	// write all, then read all: a later write must not disturb an earlier record
 	for _, rec := range recs {
 		err, panicked, _ := lib.Try(func() error { return WriteRec(be.store, rec) })
@@ -298,7 +321,12 @@ func (h *H) recordGroup(gi int, kind string, perGroup int) {
 	// last: the lazy consumer of the revert path, on recycled buffers, for every record
 	ps := newPoisonStore(be.store)
 	for ri, rec := range recs {
-		DeleteCheck(mkChecker(rec, ri, "(buffers recycled)", "after-buffer-reuse-"), ps, rec)
+		// every second record gets a different block at its height afterwards
+		var repl *Rec
+		if ri%2 == 0 {
+			repl = h.genRec(g, 7+ri, rec.Header.Number)
+		}
+		DeleteCheck(mkChecker(rec, ri, "(buffers recycled)", "after-buffer-reuse-"), ps, rec, repl)
 	}
 }
 
@@ -437,6 +465,72 @@ func (h *H) chainCase(ci int, srcNew, dstNew bool, kind string, blocks int, vers
 	check(be.store, bc, "")
 	ps := newPoisonStore(be.store)
 	check(ps, lib.NodeOn(ps, g.Net, dstNew), "(buffers recycled)")
+	// reorg as sync does it: RevertHead, then Store of a different block at that height; the
+	// removed block's transactions (every kind, incl. an L1 handler without nonce) must be
+	// not-found by hash, never another transaction
+	for round := 0; round < h.f.Scale(3, 10); round++ {
+		if round == 0 {
+			// make sure the head about to be removed holds every transaction kind
+			txs, rcs := allKindsTxs(g, g.Head().Block.ProtocolVersion, 14)
+			b, err := g.Next(&lib.BlockSpec{Txs: txs, Rcs: rcs})
+			if err != nil {
+				res.Note("chain generator: %v", err)
+				return
+			}
+			if err := lib.StoreOn(bc, b); err != nil {
+				res.Violate(lib.Violation{Sig: "chain-store-fails", What: fmt.Sprintf("storing a valid all-kinds block on %s: %v", name, err), Replay: h.spec("chain", ci, nil)})
+				return
+			}
+			recs = append(recs, &Rec{Header: b.Block.Header, Txs: b.Block.Transactions, Rcs: b.Block.Receipts, SU: b.SU})
+		}
+		old := recs[len(recs)-1]
+		if err := g.Revert(); err != nil {
+			res.Note("chain generator revert: %v", err)
+			return
+		}
+		if err, panicked, _ := lib.Try(func() error { return bc.RevertHead() }); err != nil {
+			sig := "revert-head-fails"
+			if panicked {
+				sig = "revert-head-panics"
+			}
+			res.Violate(lib.Violation{Sig: sig, What: fmt.Sprintf("RevertHead on %s: %v", name, err), Replay: h.spec("chain", ci, nil)})
+			return
+		}
+		recs = recs[:len(recs)-1]
+		mkc := func(label string) *Checker {
+			return &Checker{res: res, backend: name + label, replay: func(accessor, detail string) any {
+				d := recSummary(old)
+				d["accessor"], d["detail"], d["backend"], d["round"] = accessor, detail, name+label, round
+				return h.spec("chain", ci, d)
+			}}
+		}
+		StaleHashCheck(mkc("(after revert)"), be.store, bc, old.Txs)
+		txs, rcs := allKindsTxs(g, g.Head().Block.ProtocolVersion, 6)
+		b, err := g.Next(&lib.BlockSpec{Txs: txs, Rcs: rcs})
+		if err != nil {
+			res.Note("chain generator: %v", err)
+			return
+		}
+		cl := b.Clone()
+		comm, err := bc.SanityCheckNewHeight(cl.Block, cl.SU, cl.Classes)
+		if err == nil {
+			err = bc.Store(cl.Block, comm, cl.SU, cl.Classes)
+		}
+		if err != nil {
+			res.Violate(lib.Violation{Sig: "chain-store-fails", What: fmt.Sprintf("storing a valid replacement block on %s: %v", name, err), Replay: h.spec("chain", ci, nil)})
+			return
+		}
+		rec := &Rec{Header: b.Block.Header, Txs: b.Block.Transactions, Rcs: b.Block.Receipts, SU: b.SU,
+			Comm: lib.DeepCopy(comm).(*core.BlockCommitments), Classes: map[felt.Felt]*core.DeclaredClassDefinition{}, NewCls: dstNew}
+		for chash, cls := range b.Classes {
+			rec.Classes[chash] = &core.DeclaredClassDefinition{At: b.Block.Number, Class: cls}
+		}
+		recs = append(recs, rec)
+		res.Hit("chain:revert-and-replace")
+		StaleHashCheck(mkc("(after revert and replacement)"), be.store, bc, old.Txs)
+		StaleBlockHashCheck(mkc("(after revert and replacement)"), be.store, bc, old.Header)
+		ReadBack(mkc("(replacement)"), be.store, bc, rec, true)
+	}
 	if be.reopen != nil {
 		ns, err := be.reopen()
 		if err != nil {
